@@ -95,7 +95,7 @@ func WfCore(mat *Material, st *State, m *Msg) (bool, string) {
 			return false, "the claimed sender index does not exist"
 		}
 		for i, it := range m.Items {
-			v := it.Val
+			v := mat.CanonAt(it.Val, it.Ident)
 			// the share keyper Kidx computes for this identity with the set's eon secret
 			if !(v.Kind == "share" && v.Set == dkg.Set && v.Keyper == int(m.Kidx)%mat.N && v.Ident == it.Ident) {
 				return false, fmt.Sprintf("share %d is not the sender's share for its identity", i)
@@ -104,7 +104,7 @@ func WfCore(mat *Material, st *State, m *Msg) (bool, string) {
 		return true, ""
 	}
 	for i, it := range m.Items {
-		v := it.Val
+		v := mat.CanonAt(it.Val, it.Ident)
 		if v.Kind == "key" && v.Set == dkg.Set && v.Ident == it.Ident {
 			continue
 		}
